@@ -19,6 +19,7 @@ type envSpec struct {
 	vals   []string // value per level
 	stage  bool     // run as a pipeline stage (otherwise directly: the stage level does not exist)
 	order  string   // how the values sort relative to the levels
+	twoVar bool     // a second variation follows that does NOT define the name: it must see the next level down
 }
 
 func (s envSpec) line() string {
@@ -58,6 +59,9 @@ func (s envSpec) yaml(dir string) string {
 	}
 	if has(5) {
 		fmt.Fprintf(&b, "    variations:\n      - VAL: %q\n", s.vals[5])
+		if s.twoVar {
+			b.WriteString("      - UNRELATED: x\n")
+		}
 	}
 	b.WriteString("    command:\n      - 'echo \"RESULT N=[$VAL] TN=[$TASK_NAME] P=[$PASSTHRU] C=[$CTXONLY] T=[$TASKONLY]\"'\n")
 	b.WriteString("pipelines:\n  p:\n    - task: t\n")
@@ -89,14 +93,29 @@ func envCase(col *Collector, s envSpec) {
 		}
 	}
 	cs.NonTrivial = nlev >= 2
-	var got string
+	var got, got2 string
+	nres := 0
 	for _, l := range strings.Split(res.stdout, "\n") {
 		if i := strings.Index(l, "RESULT "); i >= 0 {
-			got = strings.TrimSpace(l[i+7:])
+			nres++
+			if nres == 1 {
+				got = strings.TrimSpace(l[i+7:])
+			} else {
+				got2 = strings.TrimSpace(l[i+7:])
+			}
 		}
 	}
 	cs.Impl = got
 	want := fmt.Sprintf("N=[%s] TN=[t] P=[kept as is] C=[from-context] T=[from-task]", s.expected())
+	if s.twoVar && s.mask&32 != 0 {
+		// the second variation does not define the name: the next defining level down applies
+		s2 := s
+		s2.mask &^= 32
+		want2 := fmt.Sprintf("N=[%s] TN=[t] P=[kept as is] C=[from-context] T=[from-task]", s2.expected())
+		if got == want && got2 != want2 {
+			cs.Fail, cs.Sig = fmt.Sprintf("second variation (which does not define the name) saw %s, expected %s", got2, want2), "c09-later-variation"
+		}
+	}
 	switch {
 	case res.panicked || res.timedOut || res.exit != 0:
 		cs.Fail, cs.Sig = fmt.Sprintf("taskctl exit=%d timeout=%v: %s", res.exit, res.timedOut, lastLines(res.stderr, 2)), "c09-run-failed"
@@ -231,7 +250,7 @@ func runC09(col *Collector, tier string, seed int64) {
 				if tier != "thorough" && order == "rand" && mask%3 != int(seed%3+3)%3 {
 					continue
 				}
-				s := envSpec{mask: mask, stage: stage, order: order, vals: make([]string, 6)}
+				s := envSpec{mask: mask, stage: stage, order: order, vals: make([]string, 6), twoVar: mask&32 != 0 && (mask+len(order))%2 == 0}
 				perm := rng.Perm(6)
 				for i := range s.vals {
 					var rank int
